@@ -8,7 +8,7 @@
     correspondence check, not yet by a closed theorem: hence `_partial`. *)
 From Coq Require Import NArith List String Bool.
 From Coq Require Import Strings.Byte.
-From PDL Require Import Base.Bits Base.Outcome Lang.Ast Lang.Sexp Analyzer.Schema Sem.RefEncode Rust.Encode Proofs.Pack Proofs.BitfieldEncode Proofs.SchemaEnums Proofs.ArrayEncode.
+From PDL Require Import Base.Bits Base.Outcome Lang.Ast Lang.Sexp Analyzer.Schema Sem.RefEncode Rust.Encode Proofs.Pack Proofs.BitfieldEncode Proofs.SchemaEnums Proofs.ArrayEncode Proofs.OptionalEncode.
 Import ListNotations.
 Open Scope N_scope.
 
@@ -97,6 +97,26 @@ Theorem C03_array_size_modifier_refuted :
     rust_encode 5 mod_file sch "M" (VObj [("x", VList [VNum 1; VNum 2])]) = Outcome.Ok [x02; x01; x02].
 Proof. exact size_modifier_counter_example. Qed.
 Print Assumptions C03_array_size_modifier_refuted.
+
+(** OPTIONAL FIELDS AND THEIR FLAGS (Proofs/OptionalEncode.v): root declarations of
+    bit-fields, condition flags and optional scalar / enum fields.  Whenever the reference has
+    an encoding -- which forces the presence pattern to be consistent and the condition values
+    to be 0 or 1 -- the emitted encoder returns exactly the reference bytes: the flag takes
+    the condition value iff the field is present, whichever of several fields sharing the
+    flag is looked at, and an absent field contributes nothing. *)
+Theorem C03_flags_and_optional_fields_encode_as_reference :
+  forall (fuel : nat) (fl : file) (sch : schema) (id : string) (d : decl) (v : value) (bs : list byte),
+    schema_knows_enums fl sch ->
+    lookup_decl fl id = Some d ->
+    root_of_optional_fragment fl d ->
+    ref_encode (S fuel) fl id v = Some bs ->
+    match rust_encode (S fuel) fl sch id v with
+    | Ok out => out = bs
+    | Panic GenAssert => True
+    | _ => False
+    end.
+Proof. exact rust_encode_optional. Qed.
+Print Assumptions C03_flags_and_optional_fields_encode_as_reference.
 
 (** the model and the reference agree on a concrete mixed declaration (computed) *)
 Definition c03_file : file :=
